@@ -79,8 +79,9 @@ def kindDisp (i : Inst) : Str := i.kind.toMD.display
 does on at most 20 elements; beyond that the harness does not compare the order inside a group) -/
 def usortSubs (l : List (Subscr Inst)) : List (Subscr Inst) := stableSort l
 
-def sortSubs (l : List (Subscr Inst)) : List (Subscr Inst) :=
-  l.mergeSort (BarterModel.Index.leKey (Subscr.sortKey instOps))
+/-- canonical order of a multiset of observation lines: the order of the printed lines themselves (all ASCII),
+as the harness sorts them — independent of the sort keys of the model -/
+def sortLines (l : List String) : List String := l.mergeSort (fun a b => !decide (b < a))
 
 /-! ### model -/
 
@@ -112,7 +113,7 @@ def initLines (batches : List (List (Subscr Inst))) : List String :=
     | .error (.validation _) => ["% init:validation-error"]
     | .error _ => ["% init:other-error"]
   tags ++ r.calls.flatMap (callLines long) ++ ["calls " ++ toString r.calls.length] ++
-    (sortSubs r.initialised).map (fun s => "isub " ++ subTok s) ++
+    sortLines (r.initialised.map (fun s => "isub " ++ subTok s)) ++
     (match r.outcome with
      | .ok chans => ["res ok " ++ " ".intercalate (Chan.all.map fun f => toString (chans.get f).length)]
      | .network => ["res network"]
@@ -145,8 +146,10 @@ def spec : Drv Unit where
         if specAccepts specValid batches then
           -- every subscription of a batch, once per batch holding it, under its own exchange id and kind; one
           -- connection per distinct (exchange, kind) of a batch; nothing else
-          (s, ["calls " ++ toString (specCalls instOps batches)] ++
-            (specInitialised instOps batches).map (fun x => "isub " ++ subTok x))
+          -- written from `Spec` directly (`nub` = the subscriptions of a batch as a set; distinct keys by
+          -- `eraseDups`), not through the model's sort keys
+          (s, ["calls " ++ toString ((batches.map fun b => ((b.map Subscr.gkey).eraseDups).length).sum)] ++
+            sortLines ((batches.flatMap nub).map (fun x => "isub " ++ subTok x)))
         else
           -- rejected, and nothing initialised
           (s, ["calls 0", "res err"])
